@@ -263,8 +263,11 @@ class Ctx:
 
     # -- finish: prints verdict lines, writes evidence, returns exit code
     def finish(self):
+        scratch = os.environ.get("VERIF_SCRATCH_OUT")      # seed sweeps: keep evidence/ and out/ of the real tree untouched
+        if scratch:
+            self.evidence_dir = os.path.join(scratch, self.evidence_dir)
+        outdir = os.path.join(scratch or os.path.join(VERIF, "out"), "replays")
         os.makedirs(os.path.join(VERIF, self.evidence_dir), exist_ok=True)
-        outdir = os.path.join(VERIF, "out", "replays")
         os.makedirs(outdir, exist_ok=True)
         known_keys = {k["key"]: k for k in self.known if k.get("status") == "known"}
         real = []
